@@ -441,3 +441,264 @@ def probe_cli_resource(ctx, prop, fd, pr):
     if cr:
         return ('different', cr)
     return None
+
+
+# ------------------------------------------------------------------------------------------------ C16
+
+def triage16(ctx, entry, symptom, label, what, replay, feats=()):
+    from . import check
+    fs = {'entry:' + entry, 'label:' + label} | set(feats)
+    app = [fd for fd in check.applicable(ctx.findings_db, 'C16', 'any', fs) if check.symptom_matches(fd, symptom, what)]
+    if app:
+        ctx.finding_excluded[app[0]['id']] += 1
+        ctx.known_finding(app[0]['id'], app[0]['what'])
+        return
+    ctx.violation(('C16', entry, symptom), '%s via %s [%s] %s' % (symptom, entry, label, what), replay)
+
+
+def c16(ctx):
+    from . import hostile, checks_format
+    quick = ctx.tier == 'quick'
+    ctx.cov['rule'] = ('formatter: valid texts (pool protocols in random spellings/layouts/comments) and invalid texts (truncations, token edits, garbage, byte-level) through `format -d`, '
+                       '`format -f` and FormatPacketDslExport (ASan host), each compared byte for byte with the in-process library result (stdout = result + the single line terminator; '
+                       'file = result; C string = result; on error: non-zero exit, file untouched, "Error:" prefix). compile: pool protocols x subsets of the six output flags x '
+                       '{with, without the word compile} x output path shapes; written tree compared byte for byte with the generators\' file maps, nothing else created (directory listing '
+                       '+ strace sample). distinct = (text, entry point) and (protocol, subset, spelling) pairs')
+    rng = random.Random('%s/c16' % ctx.seed)
+    # ---------------- formatter entry points
+    texts = []
+    pool = base_pool(ctx.seed, (30 if quick else 300), (4 if quick else 40), 'Ep')
+    for p in pool[::(3 if quick else 1)]:
+        r2 = random.Random('%s/%s/e' % (ctx.seed, p.tag))
+        toks = dslprint.tokens(p, dslprint.Spelling(rng=r2, p=0.3))
+        toks = dslprint.insert_comments(toks, r2, p=0.05)
+        texts.append(('valid', dslprint.layout(toks, r2.choice(['pretty', 'oneline', 'random', 'tabs', 'tight']), r2)[0].encode()))
+    valid_texts = [t.decode() for _, t in texts[:20]]
+    for kind, x in checks_format.invalid_texts(rng, valid_texts[:(8 if quick else 60)], 6):
+        texts.append(('invalid/' + kind, x.encode('utf-8', 'surrogateescape')))
+    for label, b in hostile.byte_texts(ctx.seed, True, valid_texts[:1]):
+        if label in ('prefix', 'byte-flip', 'byte-delete', 'chunk-swap', 'byte-insert', 'token-soup', 'random-bytes') and rng.random() > (0.15 if quick else 0.6):
+            continue
+        if len(b) > 90000:
+            continue
+        texts.append(('bytes/' + label, b))
+    for label, t in hostile.shape_texts()[::(9 if quick else 2)]:
+        texts.append(('shape', t.encode()))
+    ctx.cov['formatter_texts'] = len(texts)
+    v = ctx.vapi
+    lib = []
+    for label, b in texts:
+        r = v.call({'op': 'format', 'text_b64': tools.b64(b)}, timeout=120)
+        import base64
+        lib.append((base64.b64decode(r.get('out_b64', '')), r.get('err'), r.get('panic')))
+    ctx.cli
+
+    def fmt_cli(job):
+        i, label, b = job
+        wd = os.path.join(ctx.scr.dir, 'c16f', 'j%d' % i)
+        os.makedirs(wd, exist_ok=True)
+        res = {}
+        if b and b'\x00' not in b:
+            logp = os.path.join(wd, 'd.out')
+            with open(logp, 'wb') as lf:
+                p = subprocess.run(['timeout', '-s', 'QUIT', '60', ctx.cli.encode(), b'format', b'-d', b], stdout=lf, stderr=subprocess.DEVNULL, cwd=wd, stdin=subprocess.DEVNULL)
+            with open(logp, 'rb') as lf:
+                res['d'] = (p.returncode, lf.read())
+        src = os.path.join(wd, 'x.dsl')
+        with open(src, 'wb') as f:
+            f.write(b)
+        st0 = os.stat(src)
+        logp = os.path.join(wd, 'f.out')
+        with open(logp, 'wb') as lf:
+            p = subprocess.run(['timeout', '-s', 'QUIT', '60', ctx.cli, 'format', '-f', src], stdout=lf, stderr=subprocess.STDOUT, cwd=wd, stdin=subprocess.DEVNULL)
+        with open(src, 'rb') as f:
+            after = f.read()
+        with open(logp, 'rb') as lf:
+            res['f'] = (p.returncode, after, lf.read(), sorted(os.listdir(wd)))
+        shutil.rmtree(wd, ignore_errors=True)
+        return job, res
+    jobs = [(i, l, b) for i, (l, b) in enumerate(texts)]
+    with ThreadPoolExecutor(max_workers=16) as ex:
+        cli_res = list(ex.map(fmt_cli, jobs))
+    exp_inputs = [(str(i), b) for i, (l, b) in enumerate(texts)]
+    host_res = run_chost(ctx, exp_inputs, 'c16')
+    for (i, label, b), res in cli_res:
+        want, err, pan = lib[i]
+        rep = {'label': label, 'input_b64': tools.b64(b), 'input_preview': b[:400].decode('utf-8', 'replace'), 'library_result': want[:600].decode('utf-8', 'replace'), 'library_error': err}
+        if pan:
+            ctx.counters['library-panics (C11 domain)'] += 1
+            continue
+        lab0 = label.split('/')[0]
+        if 'd' in res:
+            rc, out = res['d']
+            ctx.evaluated(1, key=(i, 'format -d'))
+            if err is None:
+                if rc != 0:
+                    triage16(ctx, 'format -d', 'nonzero-exit-on-valid', lab0, 'exit %d' % rc, dict(rep, stdout=out[:500].decode('utf-8', 'replace')))
+                elif out != want + b'\n':
+                    triage16(ctx, 'format -d', 'stdout-differs', lab0, 'stdout is not exactly the library result + line terminator: starts %r, result starts %r' % (out[:40], want[:40]),
+                             dict(rep, stdout=out[:800].decode('utf-8', 'replace')))
+            else:
+                if rc == 0:
+                    triage16(ctx, 'format -d', 'zero-exit-on-error', lab0, 'syntax error but exit status 0', dict(rep, stdout=out[:500].decode('utf-8', 'replace')))
+        rc, after, fout, listing = res['f']
+        ctx.evaluated(1, key=(i, 'format -f'))
+        if err is None:
+            if rc != 0:
+                triage16(ctx, 'format -f', 'nonzero-exit-on-valid', lab0, 'exit %d: %r' % (rc, fout[:200]), rep)
+            elif after != want:
+                triage16(ctx, 'format -f', 'file-differs', lab0, 'file content after format -f is not the library result: %r vs %r' % (after[:60], want[:60]), dict(rep, file_after=after[:800].decode('utf-8', 'replace')))
+        else:
+            if rc == 0:
+                triage16(ctx, 'format -f', 'zero-exit-on-error', lab0, 'syntax error but exit status 0', rep)
+            if after != b:
+                triage16(ctx, 'format -f', 'file-touched-on-error', lab0, 'file changed although the text has a syntax error', dict(rep, file_after=after[:800].decode('utf-8', 'replace')))
+        extra = [x for x in listing if x not in ('x.dsl', 'f.out', 'd.out')]
+        if extra:
+            triage16(ctx, 'format -f', 'stray-files', lab0, 'format created %s' % extra, rep)
+        # export
+        hr = host_res.get(str(i))
+        ctx.evaluated(1, key=(i, 'export'))
+        if isinstance(hr, tuple):
+            ctx.counters['export-crash (C11 domain)'] += 1
+        elif hr is not None:
+            if b'\x00' in b:
+                cut = b[:b.index(b'\x00')]
+                r2 = v.call({'op': 'format', 'text_b64': tools.b64(cut)})
+                import base64 as _b
+                w2, e2 = _b.b64decode(r2.get('out_b64', '')), r2.get('err')
+            else:
+                w2, e2 = want, err
+            if e2 is None and hr != w2:
+                triage16(ctx, 'export', 'cstring-differs', lab0, 'FormatPacketDslExport returns %r..., library %r...' % (hr[:60], w2[:60]), dict(rep, export=hr[:800].decode('utf-8', 'replace')))
+            if e2 is not None and not hr.startswith(b'Error:'):
+                triage16(ctx, 'export', 'error-not-prefixed', lab0, 'syntax error but the returned string does not start with "Error:": %r' % hr[:80], rep)
+    san = [k for k in host_res if k.startswith('__sanitizer__')]
+    for k in san:
+        triage16(ctx, 'export', 'sanitizer-report', 'batch', host_res[k][1][-500:], {'output': host_res[k][1]})
+    ctx.sample({'entry': 'format -d / -f / export', 'input': texts[0][1][:300].decode('utf-8', 'replace'), 'library_result': lib[0][0][:300].decode('utf-8', 'replace')})
+    # ---------------- compile entry points
+    allsub = [[l for k, l in enumerate(tools.LANGS) if m >> k & 1] for m in range(1, 64)]
+    nprot = 6 if quick else 40
+    protos = [p for p in pool if p.root is not None][:nprot]
+    jobs = []
+    jn = 0
+    for p in protos:
+        text = dslprint.render(p)
+        r2 = random.Random('%s/%s/s' % (ctx.seed, p.tag))
+        subs = [tools.LANGS] + ([[l] for l in tools.LANGS] + r2.sample(allsub, 5) if quick else allsub)
+        for sub in subs:
+            for word in (False, True):
+                jn += 1
+                jobs.append((jn, p, text, sub, word, r2.choice(['rel', 'abs', 'nested', 'space'])))
+    expect = {}
+    for p in protos:
+        text = dslprint.render(p)
+        expect[p.tag] = {}
+    def expected(p, text, sub):
+        key = tuple(sub)
+        if key not in expect[p.tag]:
+            expect[p.tag][key] = v.compile(text, [l for l in tools.LANGS if l in sub], shared=True)
+        return expect[p.tag][key]
+    for jn_, p, text, sub, word, shape in jobs:
+        expected(p, text, sub)
+
+    def comp_cli(job):
+        jn_, p, text, sub, word, shape = job
+        wd = os.path.join(ctx.scr.dir, 'c16c', 'j%d' % jn_)
+        os.makedirs(wd, exist_ok=True)
+        src = os.path.join(wd, 'in.dsl')
+        with open(src, 'w') as f:
+            f.write(text)
+        args = (['compile'] if word else []) + ['-f', src]
+        dirs = {}
+        for l in sub:
+            name = {'rel': 'out_%s' % l, 'abs': os.path.join(wd, 'abs_%s' % l), 'nested': 'a/b c/%s/deep' % l, 'space': 'dir with space %s' % l}[shape]
+            dirs[l] = name
+            args += [FLAGS[l], name]
+        rc, out = run_cli(ctx, args, wd)
+        trees = {}
+        for l, name in dirs.items():
+            d = name if os.path.isabs(name) else os.path.join(wd, name)
+            trees[l] = read_tree(d) if os.path.isdir(d) else None
+        allfiles = []
+        for dp, dn, fn in os.walk(wd):
+            for f in fn:
+                allfiles.append(os.path.relpath(os.path.join(dp, f), wd))
+        shutil.rmtree(wd, ignore_errors=True)
+        return job, rc, out, trees, allfiles, dirs
+    with ThreadPoolExecutor(max_workers=16) as ex:
+        comp = list(ex.map(comp_cli, jobs))
+    for (jn_, p, text, sub, word, shape), rc, out, trees, allfiles, dirs in comp:
+        er = expected(p, text, sub)
+        ctx.evaluated(1, key=(p.tag, tuple(sub), word, shape))
+        rep = {'dsl': text, 'flags': sub, 'with_word_compile': word, 'path_shape': shape, 'exit_status': rc, 'output': out.decode('utf-8', 'replace')[-800:]}
+        gen_failed = [l for l in sub if l not in er['files']]
+        if gen_failed:
+            # a generator reports an error: the CLI must stop with a non-zero status (what was written before is unspecified)
+            if rc == 0:
+                triage16(ctx, 'compile', 'zero-exit-on-generator-error', 'compile', '%s failed in the library but the CLI exits 0' % gen_failed, rep)
+            continue
+        if rc != 0:
+            triage16(ctx, 'compile', 'nonzero-exit', 'compile', 'exit %d on a protocol the library compiles' % rc, rep)
+            continue
+        expected_files = set()
+        for l in sub:
+            want = er['files'][l]
+            got = trees[l]
+            name = dirs[l]
+            base = name if not os.path.isabs(name) else os.path.relpath(name, os.path.dirname(name.rstrip('/')) if False else os.path.join(ctx.scr.dir, 'c16c', 'j%d' % jn_))
+            for fn in want:
+                expected_files.add(os.path.normpath(os.path.join(base, fn)))
+            if got is None:
+                triage16(ctx, 'compile', 'tree-missing', 'compile', 'no directory written for %s' % l, rep)
+                continue
+            d = tree_diff(want, got)
+            if d:
+                triage16(ctx, 'compile', 'tree-differs', 'compile', '%s tree differs from the generator file map: %s' % (l, d[:4]), dict(rep, lang=l, diff=d))
+        stray = [f for f in allfiles if os.path.normpath(f) not in expected_files and f not in ('in.dsl', 'cli.out')]
+        if stray:
+            triage16(ctx, 'compile', 'stray-files', 'compile', 'files outside the generators\' file set: %s' % stray[:5], rep)
+    ctx.cov['compile_runs'] = len(jobs)
+    ctx.sample({'entry': 'compile', 'flags': jobs[1][3], 'with_word_compile': jobs[1][4], 'path_shape': jobs[1][5], 'protocol': jobs[1][1].tag})
+    # strace sample: writes only under the requested directories
+    ns = 0
+    for (jn_, p, text, sub, word, shape) in jobs[:: max(1, len(jobs) // (6 if quick else 30))]:
+        wd = os.path.join(ctx.scr.dir, 'c16s', 'j%d' % jn_)
+        os.makedirs(wd, exist_ok=True)
+        src = os.path.join(wd, 'in.dsl')
+        with open(src, 'w') as f:
+            f.write(text)
+        args = (['compile'] if word else []) + ['-f', src]
+        for l in sub:
+            args += [FLAGS[l], os.path.join(wd, 'OUT', l)]
+        log = os.path.join(wd, 'strace.log')
+        subprocess.run(['strace', '-f', '-qq', '-e', 'trace=openat,open,creat,mkdir,mkdirat,rename,renameat,renameat2,unlink,unlinkat,rmdir', '-o', log, ctx.cli] + args,
+                       stdout=subprocess.DEVNULL, stderr=subprocess.DEVNULL, cwd=wd)
+        try:
+            tr = open(log).read()
+        except OSError:
+            ctx.notes.append('strace unavailable')
+            break
+        ns += 1
+        bad = []
+        for line in tr.split('\n'):
+            if 'ENOENT' in line and 'O_CREAT' not in line:
+                continue
+            m = re.search(r'"([^"]*)"', line)
+            if not m:
+                continue
+            path = m.group(1)
+            writes = ('mkdir' in line or 'O_WRONLY' in line or 'O_RDWR' in line or 'O_CREAT' in line or 'creat(' in line or 'rename' in line or 'unlink' in line or 'rmdir' in line)
+            if writes and not (os.path.join(wd, 'OUT') in os.path.normpath(os.path.join(wd, path)) or path.startswith('/dev/') or path.startswith('/proc/')):
+                bad.append(line[:200])
+        if bad:
+            triage16(ctx, 'compile', 'writes-elsewhere', 'compile', 'strace: file-system writes outside the requested directories: %s' % bad[:3], {'dsl': text, 'strace': bad[:20]})
+        shutil.rmtree(wd, ignore_errors=True)
+    ctx.cov['strace_observed_compiles'] = ns
+    ctx.assumptions += ['`format -d ""` cannot be distinguished from an absent flag by the CLI; the empty text is only sent through -f and the export',
+                        'a text with an embedded NUL reaches the C export truncated at the NUL (C string); it is compared with the library result on the truncated text']
+    probes(ctx, 'C16')
+
+
+CHECKS['C16'] = c16
